@@ -247,15 +247,20 @@ func ruleSpawnReport(w *World, r *RuleResult) {
 				if idx, f, ok := c.cell(e.LV); ok && f == "" {
 					ix := stripConv(idx)
 					if ix.Op == "rem" && c.isM(ix.A[1]) {
+						// value: Code[i]; index: offset + i (whatever form the loop counter takes)
 						l := linearOf(ix.A[0])
-						if l.Const == 0 && len(l.Coef) == 2 && l.Coef[off] == 1 {
-							// value: Code[i] with the same i
-							for k, a := range l.Atom {
-								if k != off && e.Val.contains(func(x *T) bool { return x.Key() == a.Key() }) {
-									loadOK = true
+						e.Val.walk(func(x *T) bool {
+							if x.Op == "elem" && len(x.A) == 2 {
+								if b := stripConv(x.A[0]); b.Op == "sel" && b.S == "Code" {
+									li := linearOf(x.A[1])
+									li.Coef[off]++
+									if l.equal(li) {
+										loadOK = true
+									}
 								}
 							}
-						}
+							return true
+						})
 					}
 				}
 			}
@@ -302,7 +307,7 @@ func ruleDialectAgree(w *World, r *RuleResult) {
 			return true
 		})
 	}
-	for _, fn := range libFuncs(w) {
+	for _, fn := range libRoots(w) {
 		paths, err := w.Paths(fn)
 		if err != nil {
 			continue
